@@ -25,7 +25,10 @@ func ConcatArray(arr *SexpArray, rest []Sexp) (Sexp, error) {
 		return SexpNull, fmt.Errorf("ConcatArray called with nil arr")
 	}
 	var res SexpArray
-	res.Val = arr.Val
+	// a fresh backing array: the result must not share spare
+	// capacity with the first argument (two concats onto the
+	// same array would overwrite each other's elements)
+	res.Val = append(make([]Sexp, 0, len(arr.Val)), arr.Val...)
 	for i, x := range rest {
 		switch t := x.(type) {
 		case *SexpArray:
